@@ -70,7 +70,7 @@ MUTANTS = [
     ("c08-unguarded-negative", EVS, "if !ok && analog.Bidirectional {", "if !ok {", ["C08"]),
     ("c08-jump-keeps-other-direction", EVS, "\t\t\t\td.AnalogNoteOn(identifier, analog.Note, analog.ChannelOffset, ie)\n\t\t\t}\n\t\t\td.AnalogNoteOff(identifierNeg, ie)", "\t\t\t\td.AnalogNoteOn(identifier, analog.Note, analog.ChannelOffset, ie)\n\t\t\t}", ["C08", "C01"]),
     ("c05-panic-unmasked-channel", PARSER, "if cfg.Defaults.Channel < 1 || cfg.Defaults.Channel > 16 {", "if cfg.Defaults.Channel < 0 || cfg.Defaults.Channel > 16 {", ["C05", "C10"]),
-    ("c05-cc-drop-mod16", EVS, "\t\tchannel := (d.channel + analog.ChannelOffset) % 16\n\t\tchannelNeg", "\t\tchannel := (d.channel + analog.ChannelOffset)\n\t\tchannelNeg", ["C05", "C06"]),
+    ("c05-cc-drop-mod16", EVS, "\t\tchannel := (d.channel + analog.ChannelOffset) % 16\n\t\tif canBeNegative {", "\t\tchannel := (d.channel + analog.ChannelOffset)\n\t\tif canBeNegative {", ["C05", "C06"]),
     ("c05-bend-overflow", MIDIEV, "target = 8192 + int(val*8191)", "target = 8192 + int(val*8192)", ["C05", "C06"]),
     ("c09-nil-action-negative", PARSER, "if analog.ActionNegative != nil {", "if analog.Action != nil {", ["C09", "C10"]),
     ("c09-unguarded-decoder", PARSER, "err := decodeTOML(d, &cfg)", "err := d.Decode(&cfg)", ["C09"]),
@@ -84,6 +84,18 @@ MUTANTS = [
     ("c10-green-blue-swapped", PARSER, "\t\t\tGreen: byte(v >> 8),\n\t\t\tBlue:  byte(v),", "\t\t\tGreen: byte(v),\n\t\t\tBlue:  byte(v >> 8),", ["C10"]),
     ("c10-velocity-0-kept", PARSER, "\tif velocity == 0 {\n\t\tvelocity = 64\n\t}", "", ["C10"]),
     ("c10-deadzone-specific-dropped", PARSER, "deadzonesTmp[evcode] = value", "if value != 0.33 {\n\t\t\t\t\tdeadzonesTmp[evcode] = value\n\t\t\t\t}", ["C10"]),
+    ("c12-factory-before-user-default", "internal/pkg/midi/device/config/loader.go",
+     "\t\tcfg, ok = c.User.Keyboards[input.InputID{}] // picking user default if exist\n\t\tif ok {\n\t\t\treturn cfg, nil\n\t\t}\n\t\tcfg, ok = c.Factory.Keyboards[id]\n\t\tif ok {\n\t\t\treturn cfg, nil\n\t\t}",
+     "\t\tcfg, ok = c.Factory.Keyboards[id]\n\t\tif ok {\n\t\t\treturn cfg, nil\n\t\t}\n\t\tcfg, ok = c.User.Keyboards[input.InputID{}] // picking user default if exist\n\t\tif ok {\n\t\t\treturn cfg, nil\n\t\t}", ["C12"]),
+    ("c12-gamepad-factory-from-keyboards", "internal/pkg/midi/device/config/loader.go",
+     "\t\tcfg, ok = c.Factory.Gamepads[input.InputID{}] // picking default config", "\t\tcfg, ok = c.Factory.Keyboards[input.InputID{}] // picking default config", ["C12"]),
+    ("c12-nil-fileinfo", "internal/pkg/midi/device/config/loader.go", "\t\tif err != nil {\n\t\t\t// missing or unreadable directory: info is nil here\n\t\t\treturn err\n\t\t}\n", "", ["C12"]),
+    ("c12-suffix-without-dot", "internal/pkg/midi/device/config/loader.go", "if !strings.HasSuffix(name, \".toml\") {", "if !strings.HasSuffix(name, \"toml\") {", ["C12"]),
+    ("c12-bad-file-aborts-dir", "internal/pkg/midi/device/config/loader.go", "load failed: %s\", name, configType, err), logger.Warning)\n\t\t\treturn nil", "load failed: %s\", name, configType, err), logger.Warning)\n\t\t\treturn filepath.SkipDir", ["C12"]),
+    ("c19-suffix-without-dot", "internal/pkg/midi/device/config/monitor.go", "strings.HasSuffix(name, \".toml\")", "strings.HasSuffix(name, \"toml\")", ["C19"]),
+    ("c19-skips-user-keyboard", "internal/pkg/midi/device/config/monitor.go", "\t\t\tuserKeyboard,\n\t\t} {\n\t\t\terr = watcher.Add(path)", "\t\t} {\n\t\t\terr = watcher.Add(path)", ["C19"]),
+    ("c19-close-not-propagated", "internal/pkg/midi/device/config/monitor.go", "\t\tdefer close(change)\n", "", ["C19"]),
+    ("c19-every-second-write", "internal/pkg/midi/device/config/monitor.go", "\t\tfor event := range watcher.Events {\n", "\t\tn := 0\n\t\tfor event := range watcher.Events {\n\t\t\tn++\n\t\t\tif n > 12 && n%2 == 0 {\n\t\t\t\tcontinue\n\t\t\t}\n", ["C19"]),
     ("c14-check-before-insert", EVS,
      "\t\td.keyTracker[ie.Event.Code] = struct{}{}\n\t\tok := d.checkExitSequence()", "\t\tok := d.checkExitSequence()\n\t\td.keyTracker[ie.Event.Code] = struct{}{}", ["C14"]),
     ("c14-not-swallowed", EVS, "\t\t\t// this simple hack prevents from hanging\n\t\t\treturn", "\t\t\t// this simple hack prevents from hanging", ["C14"]),
